@@ -2,70 +2,122 @@ import Iavl.Lemmas.VMachineInv
 namespace Iavl
 open Std
 set_option linter.unusedSectionVars false
+set_option linter.unusedSimpArgs false
 variable {K V : Type} [Ord K] [BEq K] [TransOrd K] [LawfulEqOrd K]
 
 theorem inv_filter (vt : VState (OTree K V)) (h : Inv vt) (p : Nat × OTree K V → Bool) :
     Inv { vt with versions := vt.versions.filter p } :=
   ⟨h.gw, h.gl, fun q hq => h.gv q (List.mem_filter.mp hq).1⟩
 
+/-! ### content-level refinement: reads, set, remove -/
+
+/-- every read of a well-formed tree answers as the sorted map of its contents -/
+theorem read_refines (c : OTree K V) (hg : GoodO c) (r : ReadOp K) :
+    readMap (contents c) r = readTree c r := by
+  cases c with
+  | none => cases r <;> simp [readMap, readTree, contents, lookup, rank, rangeSpec]
+  | some t =>
+    have hg' : Good t := hg
+    cases r with
+    | get k => simp [readMap, readTree, contents, get_eq t k hg'.1 (avl_sizeOK t hg'.2.2)]
+    | has k => simp [readMap, readTree, contents, has_eq t k hg'.1 hg'.2.1]
+    | size => simp [readMap, readTree, contents, size_eq_length t (avl_sizeOK t hg'.2.2)]
+    | getWithIndex k => simp [readMap, readTree, contents, get_eq t k hg'.1 (avl_sizeOK t hg'.2.2)]
+    | getByIndex i => simp [readMap, readTree, contents, getByIndex_eq t i (avl_sizeOK t hg'.2.2)]
+    | range st en asc incl => simp [readMap, readTree, contents, walk_eq_spec t st en asc incl hg'.1]
+
+theorem getV_refines (c : OTree K V) (hg : GoodO c) (k : K) :
+    (mapContent (V := V)).getV (contents c) k = (treeContent (K := K) (V := V)).getV c k := by
+  cases c with
+  | none => simp [mapContent, treeContent, contents, lookup]
+  | some t =>
+    have hg' : Good t := hg
+    simp [mapContent, treeContent, contents, get_eq t k hg'.1 (avl_sizeOK t hg'.2.2)]
+
+theorem set_refines (c : OTree K V) (hg : GoodO c) (k : K) (v : V) :
+    (mapContent (K := K) (V := V)).set (contents c) k v =
+      (contents ((treeContent (K := K) (V := V)).set c k v).1, ((treeContent (K := K) (V := V)).set c k v).2) ∧
+    GoodO ((treeContent (K := K) (V := V)).set c k v).1 := by
+  cases c with
+  | none =>
+    refine ⟨by simp [mapContent, treeContent, contents, insertSorted, lookup], ?_⟩
+    exact ⟨trivial, trivial, trivial⟩
+  | some t =>
+    have hg' : Good t := hg
+    have hs := set_ok t k v hg'.1 hg'.2.1
+    have ha := avl_set t k v hg'.2.2
+    simp only [mapContent, treeContent, contents]
+    cases hset : t.set k v with
+    | mk t' upd =>
+      rw [hset] at hs ha
+      refine ⟨?_, ⟨hs.ord, hs.rmin, ha.1⟩⟩
+      simp only [contents, hs.list]
+      congr 1
+      have := hs.upd
+      simp only at this
+      cases upd <;> cases hl : lookup k t.toList <;> simp_all
+
+theorem remove_refines (c : OTree K V) (hg : GoodO c) (k : K) :
+    (mapContent (K := K) (V := V)).remove (contents c) k =
+      (((treeContent (K := K) (V := V)).remove c k).map (fun p => (contents p.1, p.2))) ∧
+    (∀ p, (treeContent (K := K) (V := V)).remove c k = some p → GoodO p.1) := by
+  cases c with
+  | none => simp [mapContent, treeContent, contents, lookup]
+  | some t =>
+    have hg' : Good t := hg
+    have hr := remove_ok t k hg'.1 hg'.2.1
+    have ha := avl_remove t k hg'.2.2
+    simp only [mapContent, treeContent, contents]
+    cases hrem : t.remove k with
+    | none =>
+      rw [hrem] at hr
+      have : lookup k t.toList = none := (lookup_none_iff' k _).mpr hr
+      simp [this]
+    | some res =>
+      obtain ⟨node, nk, v⟩ := res
+      rw [hrem] at hr ha
+      cases node with
+      | none =>
+        obtain ⟨k', ver, ht, hc⟩ := hr
+        subst ht
+        refine ⟨by simp [lookup, hc, eraseSorted, contents], ?_⟩
+        intro p hp; simp at hp; subst hp; trivial
+      | some t' =>
+        obtain ⟨hlist, hord, hrm, hlook, _⟩ := hr
+        simp only [RemShape] at ha
+        refine ⟨by simp [hlook, contents, hlist], ?_⟩
+        intro p hp; simp at hp; subst hp; exact ⟨hord, hrm, ha.1⟩
+
 /-- one step: same result, abstraction commutes, invariant kept -/
 theorem step_refines (vt : VState (OTree K V)) (h : Inv vt) (op : Op K V) :
     VMap.step (absS vt) op = (absS (VTree.step vt op).1, (VTree.step vt op).2) ∧ Inv (VTree.step vt op).1 := by
+  unfold VMap.step VTree.step
   cases op with
   | set k v =>
-    cases hw : vt.working with
-    | none =>
-      simp only [VTree.step, VMap.step, absS, hw, contents]
-      refine ⟨by simp [insertSorted, lookup, contents], ⟨?_, h.gl, h.gv⟩⟩
-      exact ⟨trivial, trivial, trivial⟩
-    | some t =>
-      have hg : Good t := by have := h.gw; rw [hw] at this; exact this
-      have hs := set_ok t k v hg.1 hg.2.1
-      have ha := avl_set t k v hg.2.2
-      simp only [VTree.step, VMap.step, absS, hw, contents]
-      cases hset : t.set k v with
-      | mk t' upd =>
-        rw [hset] at hs ha
-        refine ⟨?_, ⟨⟨hs.ord, hs.rmin, ha.1⟩, h.gl, h.gv⟩⟩
-        simp only [contents, hs.list]
-        congr 1
-        have := hs.upd
-        simp only at this
-        cases upd <;> cases hl : lookup k t.toList <;> simp_all
+    obtain ⟨h1, h2⟩ := set_refines vt.working h.gw k v
+    simp only [VState.step]
+    have e : (absS vt).working = contents vt.working := rfl
+    rw [e, h1]
+    exact ⟨rfl, ⟨h2, h.gl, h.gv⟩⟩
   | remove k =>
-    cases hw : vt.working with
-    | none => simp [VTree.step, VMap.step, absS, hw, contents, lookup]; exact h
-    | some t =>
-      have hg : Good t := by have := h.gw; rw [hw] at this; exact this
-      have hr := remove_ok t k hg.1 hg.2.1
-      have ha := avl_remove t k hg.2.2
-      simp only [VTree.step, VMap.step, absS, hw, contents]
-      cases hrem : t.remove k with
-      | none =>
-        rw [hrem] at hr
-        have : lookup k t.toList = none := (lookup_none_iff' k _).mpr hr
-        simp [this, hw, contents]; exact h
-      | some res =>
-        obtain ⟨node, nk, v⟩ := res
-        rw [hrem] at hr ha
-        cases node with
-        | none =>
-          obtain ⟨k', ver, ht, hc⟩ := hr
-          subst ht
-          simp [lookup, hc, eraseSorted, contents]
-          exact ⟨trivial, h.gl, h.gv⟩
-        | some t' =>
-          obtain ⟨hlist, hord, hrm, hlook, _⟩ := hr
-          simp only [RemShape] at ha
-          simp only [hlook, contents, hlist]
-          exact ⟨trivial, ⟨⟨hord, hrm, ha.1⟩, h.gl, h.gv⟩⟩
-  | save =>
-    simp only [VTree.step, VMap.step, workingVersion_abs]
+    obtain ⟨h1, h2⟩ := remove_refines vt.working h.gw k
+    simp only [VState.step]
+    have e : (absS vt).working = contents vt.working := rfl
+    rw [e, h1]
+    cases hr : treeContent.remove vt.working k with
+    | none => exact ⟨rfl, h⟩
+    | some p => exact ⟨rfl, ⟨h2 p hr, h.gl, h.gv⟩⟩
+  | save same =>
+    simp only [VState.step, workingVersion_abs]
     have hf : findVer (absS vt).versions vt.workingVersion = (findVer vt.versions vt.workingVersion).map contents :=
       findVer_map contents _ _
     rw [hf]
     cases hfv : findVer vt.versions vt.workingVersion with
-    | some c => exact ⟨by simp [absS], ⟨h.gw, h.gl, h.gv⟩⟩
+    | some c =>
+      have hgc := goodO_find h.gv hfv
+      cases same
+      · exact ⟨by simp [absS], ⟨h.gw, h.gl, h.gv⟩⟩
+      · exact ⟨by simp [absS], ⟨hgc, hgc, h.gv⟩⟩
     | none =>
       simp only [Option.map_none]
       have hl : latestVer (absS vt).versions = latestVer vt.versions := latestVer_map contents _
@@ -82,7 +134,7 @@ theorem step_refines (vt : VState (OTree K V)) (h : Inv vt) (op : Op K V) :
           | none => trivial
           | some t => rw [hw] at this; exact good_commitVer _ t this
         refine ⟨?_, ⟨hgc, hgc, ?_⟩⟩
-        · simp [absS, mapVers, hc]
+        · simp [absS, mapVers, hc, mapContent, treeContent]
         · intro p hp
           rcases List.mem_append.mp hp with hp | hp
           · exact h.gv p hp
@@ -90,22 +142,22 @@ theorem step_refines (vt : VState (OTree K V)) (h : Inv vt) (op : Op K V) :
       · simp only [hlt, if_false]
         exact ⟨by simp [absS], ⟨h.gw, h.gl, h.gv⟩⟩
   | rollback =>
-    simp only [VTree.step, VMap.step, absS]
+    simp only [VState.step, absS]
     refine ⟨?_, ⟨?_, h.gl, h.gv⟩⟩
-    · by_cases hb : vt.base = 0 <;> simp [hb, contents]
+    · by_cases hb : vt.base = 0 <;> simp [hb, contents, mapContent, treeContent]
     · by_cases hb : vt.base = 0
       · simp only [hb, if_true]; trivial
       · simp only [hb, if_false]; exact h.gl
   | load target =>
-    simp only [VTree.step, VMap.step]
+    simp only [VState.step]
     rw [load_abs]
-    cases hl : vt.load none target with
+    cases hl : vt.load target with
     | none => simp; exact h
     | some p => obtain ⟨vt', n⟩ := p; simp; exact load_inv vt h target vt' n hl
   | loadow target =>
-    simp only [VTree.step, VMap.step]
+    simp only [VState.step]
     rw [load_abs]
-    cases hl : vt.load none target with
+    cases hl : vt.load target with
     | none => simp; exact h
     | some p =>
       obtain ⟨vt', n⟩ := p
@@ -116,7 +168,7 @@ theorem step_refines (vt : VState (OTree K V)) (h : Inv vt) (op : Op K V) :
       congr 1
       exact filter_map_vers contents vt'.versions (fun a => decide (a ≤ vt'.base))
   | prune n =>
-    simp only [VTree.step, VMap.step]
+    simp only [VState.step]
     have hl : latestVer (absS vt).versions = latestVer vt.versions := latestVer_map contents _
     rw [hl]
     split
@@ -125,56 +177,39 @@ theorem step_refines (vt : VState (OTree K V)) (h : Inv vt) (op : Op K V) :
       simp only [absS, Prod.mk.injEq, and_true]
       congr 1
       exact filter_map_vers contents vt.versions (fun a => decide (n < a))
-  | get k =>
-    simp only [VTree.step, VMap.step, absS]
+  | delfrom n =>
+    simp only [VState.step]
+    refine ⟨?_, inv_filter vt h _⟩
+    simp only [absS, Prod.mk.injEq, and_true]
+    congr 1
+    exact filter_map_vers contents vt.versions (fun a => decide (a < n))
+  | reopen iv target =>
+    simp only [VState.step]
+    have hfresh : Inv (vt.fresh treeContent iv) := ⟨trivial, trivial, h.gv⟩
+    have habs : (absS vt).fresh mapContent iv = absS (vt.fresh treeContent iv) := by
+      simp [absS, VState.fresh, mapContent, treeContent, contents]
+    rw [habs, load_abs]
+    cases hl : (vt.fresh treeContent iv).load target with
+    | none => simp; exact hfresh
+    | some p => obtain ⟨vt', n⟩ := p; simp; exact load_inv _ hfresh target vt' n hl
+  | read r =>
+    simp only [VState.step]
     refine ⟨?_, h⟩
-    cases hw : vt.working with
-    | none => simp [contents, lookup]
-    | some t =>
-      have hg : Good t := by have := h.gw; rw [hw] at this; exact this
-      simp [contents, get_eq t k hg.1 (avl_sizeOK t hg.2.2)]
-  | has k =>
-    simp only [VTree.step, VMap.step, absS]
-    refine ⟨?_, h⟩
-    cases hw : vt.working with
-    | none => simp [contents, lookup]
-    | some t =>
-      have hg : Good t := by have := h.gw; rw [hw] at this; exact this
-      simp [contents, has_eq t k hg.1 hg.2.1]
-  | size =>
-    simp only [VTree.step, VMap.step, absS]
-    refine ⟨?_, h⟩
-    cases hw : vt.working with
-    | none => simp [contents]
-    | some t =>
-      have hg : Good t := by have := h.gw; rw [hw] at this; exact this
-      simp [contents, size_eq_length t (avl_sizeOK t hg.2.2)]
-  | getWithIndex k =>
-    simp only [VTree.step, VMap.step, absS]
-    refine ⟨?_, h⟩
-    cases hw : vt.working with
-    | none => simp [contents, lookup, rank]
-    | some t =>
-      have hg : Good t := by have := h.gw; rw [hw] at this; exact this
-      simp [contents, get_eq t k hg.1 (avl_sizeOK t hg.2.2)]
-  | getByIndex i =>
-    simp only [VTree.step, VMap.step, absS]
-    refine ⟨?_, h⟩
-    cases hw : vt.working with
-    | none => simp [contents]
-    | some t =>
-      have hg : Good t := by have := h.gw; rw [hw] at this; exact this
-      simp [contents, getByIndex_eq t i (avl_sizeOK t hg.2.2)]
-  | range st en asc incl =>
-    simp only [VTree.step, VMap.step, absS]
-    refine ⟨?_, h⟩
-    cases hw : vt.working with
-    | none => simp [contents, rangeSpec]
-    | some t =>
-      have hg : Good t := by have := h.gw; rw [hw] at this; exact this
-      simp [contents, walk_eq_spec t st en asc incl hg.1]
+    have := read_refines vt.working h.gw r
+    simp [absS, mapContent, treeContent, this]
+  | immRead ver r =>
+    simp only [VState.step]
+    have hf : findVer (absS vt).versions ver = (findVer vt.versions ver).map contents := findVer_map contents _ _
+    rw [hf]
+    cases hfv : findVer vt.versions ver with
+    | none => exact ⟨rfl, h⟩
+    | some c =>
+      have hg := goodO_find h.gv hfv
+      have := read_refines c hg r
+      refine ⟨?_, h⟩
+      simp [mapContent, treeContent, this]
   | getVersioned k ver =>
-    simp only [VTree.step, VMap.step]
+    simp only [VState.step]
     refine ⟨?_, h⟩
     have hf : findVer (absS vt).versions ver = (findVer vt.versions ver).map contents := findVer_map contents _ _
     rw [hf]
@@ -182,19 +217,18 @@ theorem step_refines (vt : VState (OTree K V)) (h : Inv vt) (op : Op K V) :
     | none => simp
     | some c =>
       have hg := goodO_find h.gv hfv
-      cases c with
-      | none => simp [contents, lookup]
-      | some t => simp [contents, get_eq t k hg.1 (avl_sizeOK t hg.2.2)]
+      have := getV_refines c hg k
+      simp [this]
   | versionExists ver =>
-    simp only [VTree.step, VMap.step]
+    simp only [VState.step]
     refine ⟨?_, h⟩
     have hf : findVer (absS vt).versions ver = (findVer vt.versions ver).map contents := findVer_map contents _ _
     rw [hf]; cases findVer vt.versions ver <;> simp
   | available =>
-    simp only [VTree.step, VMap.step]
+    simp only [VState.step]
     exact ⟨by simp [absS, map_fst_vers], h⟩
   | latest =>
-    simp only [VTree.step, VMap.step]
+    simp only [VState.step]
     exact ⟨by simp [absS, latestVer_map], h⟩
 
 /-- **C01 at history level**: for every finite operation history, every answer of the tree machine
@@ -208,12 +242,14 @@ theorem runTree_eq_runMap (vt : VState (OTree K V)) (h : Inv vt) (ops : List (Op
     simp only [runTree, runMap, hstep]
     rw [ih _ hinv]
 
-def initT : VState (OTree K V) := { versions := [], working := none, lastSaved := none, base := 0, ivPending := none }
+def initT (iv : Option Nat) : VState (OTree K V) :=
+  { versions := [], working := none, lastSaved := none, base := 0, ivOpt := iv.getD 0, ivSet := iv.isSome }
+def initM (iv : Option Nat) : VState (SMap K V) :=
+  { versions := [], working := [], lastSaved := [], base := 0, ivOpt := iv.getD 0, ivSet := iv.isSome }
 
 theorem fresh_history_refines (iv : Option Nat) (ops : List (Op K V)) :
-    runTree ({ (initT : VState (OTree K V)) with ivPending := iv }) ops =
-    runMap ({ versions := [], working := [], lastSaved := [], base := 0, ivPending := iv }) ops := by
-  have := runTree_eq_runMap ({ (initT : VState (OTree K V)) with ivPending := iv })
+    runTree (initT iv : VState (OTree K V)) ops = runMap (initM iv) ops := by
+  have := runTree_eq_runMap (initT iv : VState (OTree K V))
     ⟨trivial, trivial, by intro p hp; simp [initT] at hp⟩ ops
-  simpa [absS, initT, mapVers, contents] using this
+  simpa [absS, initT, initM, mapVers, contents] using this
 end Iavl
